@@ -63,6 +63,15 @@ func loadedField(v ssa.Value) (string, string) {
 		}
 	case *ssa.Field:
 		return fieldNames(x.X.Type(), x.Field)
+	case *ssa.TypeAssert:
+		// the same object seen through another interface: wr.w.(http.Flusher)
+		return loadedField(x.X)
+	case *ssa.Extract:
+		if ta, ok := x.Tuple.(*ssa.TypeAssert); ok && x.Index == 0 {
+			return loadedField(ta.X)
+		}
+	case *ssa.ChangeInterface:
+		return loadedField(x.X)
 	}
 	return "", ""
 }
